@@ -20,18 +20,20 @@ META = dict(
     rule=("1-4 sources fed over virtual time by scripted feeders (gaps 0 .. 1.5 s, event times in the past, present, "
           "future and out of order), jobs scheduled relative to now from feeders and before the run, handler durations "
           "0 .. 3 s, 0-2 idle handlers, max_concurrent in {1,2,3,50}, idle_sleep in {0.01,0.05,0.2}, timers firing "
-          "late. Non-trivial: a future-dated head-of-line event, an out-of-order drop and a saturated pool in the same "
+          "late, the wall clock stepping backwards or forwards by up to 5 s in 30 % of runs. Non-trivial: a future-dated head-of-line event, an out-of-order drop and a saturated pool in the same "
           "run. Distinct by (config, per-source sequence of time classes)."),
     components=dict(real=["basana.core.dispatcher.RealtimeDispatcher", "EventMultiplexer", "SchedulerQueue",
                           "basana.core.helpers.TaskPool", "basana.core.event.FifoQueueEventSource"],
                     simulated=["feeder tasks", "handlers / jobs / idle handlers", "dt.utc_now and loop clock (virtual)",
-                               "timer lateness (call_at fires up to 30 ms late)"]),
+                               "timer lateness (call_at fires up to 30 ms late)",
+                               "wall-clock steps of -5 .. +5 s while the dispatcher runs (30 % of runs)"]),
     assumptions=["bounded liveness: after the feeders stop, everything due must be dispatched within the remaining "
                  "handler work (serialised by the pool) plus polling intervals plus 6 s",
                  "idle handlers take a positive amount of time (a zero-time idle handler would spin the loop without "
                  "the virtual clock advancing, which no real handler can do)"],
     probes_expected=["future_head_of_line", "out_of_order_drop", "pool_saturated", "job_in_past", "job_in_future",
-                     "idle_handler_ran", "late_timer", "latency_checked", "non_utc_datetime"],
+                     "idle_handler_ran", "late_timer", "latency_checked", "non_utc_datetime", "wall_clock_stepped",
+                     "backwards_step_with_exact_not_early_check", "handler_waiting_for_a_job_with_full_pool"],
     states_measure="distinct (events in flight, jobs in flight, idle in flight) triples at any handler entry",
 )
 
@@ -62,7 +64,20 @@ def run(tape, prop, tier):
     late = tape.chance(0.6)
     late_seed = tape.subseed()
     salt = tape.draw(1000)
-    res.sample = dict(max_concurrent=maxc, idle_sleep=idle_sleep, handlers_per_source=nh, handler_durations=durs,
+    # wall-clock steps (NTP correction, VM resume): the realtime dispatcher reads the wall clock, not the loop clock
+    steps_spec = []
+    if tape.chance(0.3):
+        at = 0.0
+        for _ in range(1 + tape.draw(2)):
+            at += tape.choice([0.2, 0.7, 1.5, 3.0])
+            steps_spec.append((at, tape.choice([-5.0, -2.0, -0.5, 0.5, 5.0])))
+    # one handler that cannot finish before a job scheduled 0.3 s after its event has run (an order handler waiting for
+    # a confirmation, say): with at least two slots the job must get one of the others
+    dep = None
+    if tape.chance(0.3) and maxc >= 2:
+        dep_src = tape.draw(nsrc)
+        dep = (dep_src, tape.draw(len(feeders[dep_src])))
+    res.sample = dict(wall_clock_steps=steps_spec, dependent_handler=dep, max_concurrent=maxc, idle_sleep=idle_sleep, handlers_per_source=nh, handler_durations=durs,
                       idle_handlers=idle_durs, feeders=feeders, pre_jobs=pre_jobs, timer_lateness=late)
 
     tr = []
@@ -74,6 +89,9 @@ def run(tape, prop, tier):
     reported = []
     jobs = {}
     out = {}
+    steps_done = []        # (loop time, wall before, wall after)
+    n_total = sum(len(ops) for ops in feeders) + len(pre_jobs) + sum(1 for ops in feeders for o in ops if o[2] is not None) + nidle + (1 if dep else 0)
+    never_full = maxc > n_total
 
     async def main(loop):
         import basana as bs
@@ -92,13 +110,26 @@ def run(tape, prop, tier):
 
         due_of_src = {}
 
+        def reached(when):
+            """has the wall clock reached `when` as far as the dispatcher can tell? Without a backwards step: now >= when.
+            The dispatch loop reads the clock once per round; when the pool can never fill, that reading is taken at the
+            very (virtual) instant the handler starts, so only a step at this same instant leaves two legal readings.
+            When pushes can wait for room the reading may be as old as the longest handler: any reading since the run
+            began is then accepted."""
+            if bdt.utc_now() >= when:        # the comparison the dispatcher itself can make (datetimes, microseconds)
+                return True
+            back = [x for x in steps_done if x[2] < x[1]]
+            if never_full:
+                back = [x for x in back if x[0] == loop.time()]
+            return any(datetime.datetime.fromtimestamp(x[1], tz=datetime.timezone.utc) >= when for x in back)
+
         def mkh(hid):
             async def h(ev):
                 now = bdt.utc_now()
                 lat = loop.wall() - due_at.get(ev.eid, loop.wall())
                 if lat > S["max_lat"]:
                     S["max_lat"] = lat
-                if now < ev.when:
+                if not reached(ev.when):
                     viol.append(("event-early", f"handler entered {(ev.when - now).total_seconds():.6f} s before the "
                                                 f"event's time {ev.when}"))
                 tr.append(("enter", hid, ev.eid, ev.src, loop.time()))
@@ -106,7 +137,17 @@ def run(tape, prop, tier):
                 S["ev"] += 1
                 res.states.add(hash((S["ev"], S["job"], S["idle"])) & 0xffffffff)
                 try:
-                    await asyncio.sleep(durs[(hid * 3 + ev.eid) % D])
+                    if S.get("dep_eid") == ev.eid and not S.get("dep_taken"):
+                        S["dep_taken"] = True
+                        res.probes["handler_waiting_for_a_job"] += 1
+                        if S["ev"] + S["job"] >= maxc:
+                            res.probes["handler_waiting_for_a_job_with_full_pool"] += 1
+                        try:
+                            await asyncio.wait_for(S["dep_signal"].wait(), 40.0)
+                        except asyncio.TimeoutError:
+                            S["dep_timed_out"] = loop.time()
+                    else:
+                        await asyncio.sleep(durs[(hid * 3 + ev.eid) % D])
                 finally:
                     S["ev"] -= 1
             return h
@@ -122,7 +163,7 @@ def run(tape, prop, tier):
         zones = [datetime.timezone.utc, datetime.timezone(datetime.timedelta(hours=-5)),
                  datetime.timezone(datetime.timedelta(hours=5, minutes=30))]
 
-        def sched(delta):
+        def sched(delta, signal=None):
             j = len(jobs) + 1
             # the same instant, expressed in some time zone: any aware datetime is legal
             when = (bdt.utc_now() + datetime.timedelta(seconds=delta)).astimezone(zones[(j + tz_shift) % 3])
@@ -134,7 +175,9 @@ def run(tape, prop, tier):
             async def job():
                 jobs[j]["runs"] += 1
                 tr.append(("job", j, loop.time()))
-                if bdt.utc_now() < when:
+                if signal is not None:
+                    signal.set()
+                if not reached(when):
                     viol.append(("job-early", f"job scheduled for {when} ran at {bdt.utc_now()}"))
                 S["job"] += 1
                 res.states.add(hash((S["ev"], S["job"], S["idle"])) & 0xffffffff)
@@ -159,9 +202,13 @@ def run(tape, prop, tier):
             sched(delta)
 
         async def feeder(i, ops):
-            for gap, delta, job in ops:
+            for k_, (gap, delta, job) in enumerate(ops):
                 await asyncio.sleep(gap)
                 S["eid"] += 1
+                if dep == (i, k_):
+                    S["dep_eid"] = S["eid"]
+                    S["dep_signal"] = asyncio.Event()
+                    sched(max(delta, 0.0) + 0.3, signal=S["dep_signal"])
                 ev = SimEvent((bdt.utc_now() + datetime.timedelta(seconds=delta)).astimezone(zones[(S["eid"] + tz_shift) % 3]),
                               S["eid"], i)
                 pushed[i].append(ev)
@@ -175,6 +222,18 @@ def run(tape, prop, tier):
                 if job is not None:
                     sched(job)
         fs = [asyncio.ensure_future(feeder(i, ops)) for i, ops in enumerate(feeders)]
+
+        async def stepper():
+            t_prev = 0.0
+            for at, delta in steps_spec:
+                await asyncio.sleep(at - t_prev)
+                t_prev = at
+                before = loop.wall()
+                loop.skew += delta
+                steps_done.append((loop.time(), before, loop.wall()))
+                res.faults["wall_clock_step_backwards" if delta < 0 else "wall_clock_step_forwards"] += 1
+                tr.append(("clock-step", delta, loop.time()))
+        stp = asyncio.ensure_future(stepper())
 
         def model():
             exp = {}
@@ -205,6 +264,8 @@ def run(tape, prop, tier):
             n_ev = sum(len(v) for v in pushed.values())
             work = sum(max(durs) for _ in range(n_ev)) + sum(j["dur"] for j in jobs.values())
             work += 0.35 * nidle * (n_ev + len(jobs))
+            # what a backwards step made "not yet due" again becomes due that much later
+            work += sum(-dl for _, dl in steps_spec if dl < 0) + (0.5 if dep else 0.0)
             deadline = loop.time() + 6.0 + work + 0.1 * (n_ev + len(jobs))
             out["feed_end"] = loop.time()
             while loop.time() < deadline and not all_done():
@@ -221,6 +282,7 @@ def run(tape, prop, tier):
         except (Exception, asyncio.CancelledError) as e:
             out["o"] = f"raised {type(e).__name__}: {e}"
         st.cancel()
+        stp.cancel()
         out["model"] = model()
         out["handlers_of"] = handlers_of
         return loop
@@ -263,7 +325,14 @@ def run(tape, prop, tier):
         # with a pool that cannot fill up nothing competes for a slot: once due, an event must be dispatched within a
         # polling interval (idle_sleep or the 10 ms wait), plus timer lateness
         total_tasks = sum(len(v) for v in pushed.values()) + len(jobs) + nidle
-        if maxc > total_tasks and not res.first(PROP):
+        if S.get("dep_timed_out") is not None and not res.first(PROP):
+            V("not-dispatched-once-due", f"a handler waited 40 s (until t={S['dep_timed_out']:.2f}) for a job that was due "
+                                         f"0.3 s after its event, with {maxc} slots and every other handler finite")
+        if steps_done:
+            res.probes["wall_clock_stepped"] += 1
+            if never_full and any(x[2] < x[1] for x in steps_done):
+                res.probes["backwards_step_with_exact_not_early_check"] += 1
+        if maxc > total_tasks and not steps_spec and not res.first(PROP):
             bound = idle_sleep + 0.05 + (0.03 * 3 if late else 0.0)
             if S["max_lat"] > bound:
                 V("dispatch-latency", f"an event was dispatched {S['max_lat']:.3f} s after it became due although the pool "
